@@ -15,46 +15,76 @@ Proof.
   intros Hd Hx. cbn [asubterms]. right. apply in_flat_map. exists d. split; assumption.
 Qed.
 
-Lemma asubterms_trans : forall a b c, In b (asubterms a) -> In c (asubterms b) -> In c (asubterms a).
+Lemma asubterms_leaf a b : (forall ds, a <> ANode ds) -> In b (asubterms a) -> b = a.
 Proof.
-  fix IH 1. intros a b c Hb Hc. destruct a as [ | n | i | ds ].
-  - cbn [asubterms] in Hb. destruct Hb as [Hb | []]. subst b. exact Hc.
-  - cbn [asubterms] in Hb. destruct Hb as [Hb | []]. subst b. exact Hc.
-  - cbn [asubterms] in Hb. destruct Hb as [Hb | []]. subst b. exact Hc.
-  - cbn [asubterms] in Hb. destruct Hb as [Hb | Hb].
+  intros Hn Hb. destruct a as [ | n | i | ds ]; cbn [asubterms] in Hb.
+  - destruct Hb as [Hb | []]. symmetry. exact Hb.
+  - destruct Hb as [Hb | []]. symmetry. exact Hb.
+  - destruct Hb as [Hb | []]. symmetry. exact Hb.
+  - exfalso. exact (Hn ds eq_refl).
+Qed.
+
+Lemma asubterms_node ds b :
+  In b (asubterms (ANode ds)) -> b = ANode ds \/ exists d, In d ds /\ In b (asubterms d).
+Proof.
+  cbn [asubterms]. intros [Hb | Hb].
+  - left. symmetry. exact Hb.
+  - right. apply in_flat_map in Hb. exact Hb.
+Qed.
+
+Lemma asubterms_trans_n : forall n a, depth a < n -> forall b c,
+  In b (asubterms a) -> In c (asubterms b) -> In c (asubterms a).
+Proof.
+  induction n as [ | n IH ]; intros a Hd b c Hb Hc; [lia | ].
+  destruct a as [ | s | i | ds ].
+  - rewrite (asubterms_leaf ALeaf b) in Hc; [exact Hc | intros ds H; discriminate | exact Hb].
+  - rewrite (asubterms_leaf (ARef s) b) in Hc; [exact Hc | intros ds H; discriminate | exact Hb].
+  - rewrite (asubterms_leaf (AAlias i) b) in Hc; [exact Hc | intros ds H; discriminate | exact Hb].
+  - destruct (asubterms_node ds b Hb) as [Heq | [d [Hin Hbd]]].
     + subst b. exact Hc.
-    + cbn [asubterms]. right.
-      revert Hb. generalize ds at 1 3. intro l. induction l as [ | d l IHl ]; intro Hb.
-      * destruct Hb.
-      * cbn [flat_map] in Hb |- *. apply in_app_or in Hb. apply in_or_app. destruct Hb as [Hb | Hb].
-        -- left. exact (IH d b c Hb Hc).
-        -- right. exact (IHl Hb).
+    + apply asubterms_child with (d := d); [exact Hin | ].
+      pose proof (depth_child d ds Hin) as Hlt.
+      apply IH with (b := b); [lia | exact Hbd | exact Hc].
 Qed.
 
-Lemma asubterms_depth : forall a b, In b (asubterms a) -> depth b <= depth a.
+Lemma asubterms_trans a b c : In b (asubterms a) -> In c (asubterms b) -> In c (asubterms a).
+Proof. apply asubterms_trans_n with (n := S (depth a)). lia. Qed.
+
+Lemma asubterms_depth_n : forall n a, depth a < n -> forall b, In b (asubterms a) -> depth b <= depth a.
 Proof.
-  fix IH 1. intros a b Hb. destruct a as [ | n | i | ds ].
-  - cbn [asubterms] in Hb. destruct Hb as [Hb | []]. subst b. apply le_n.
-  - cbn [asubterms] in Hb. destruct Hb as [Hb | []]. subst b. apply le_n.
-  - cbn [asubterms] in Hb. destruct Hb as [Hb | []]. subst b. apply le_n.
-  - cbn [asubterms] in Hb. destruct Hb as [Hb | Hb].
+  induction n as [ | n IH ]; intros a Hd b Hb; [lia | ].
+  destruct a as [ | s | i | ds ].
+  - rewrite (asubterms_leaf ALeaf b); [apply le_n | intros ds H; discriminate | exact Hb].
+  - rewrite (asubterms_leaf (ARef s) b); [apply le_n | intros ds H; discriminate | exact Hb].
+  - rewrite (asubterms_leaf (AAlias i) b); [apply le_n | intros ds H; discriminate | exact Hb].
+  - destruct (asubterms_node ds b Hb) as [Heq | [d [Hin Hbd]]].
     + subst b. apply le_n.
-    + assert (Hex : exists d, In d ds /\ depth b <= depth d).
-      { revert Hb. generalize ds. intro l. induction l as [ | d l IHl ]; intro Hb.
-        - destruct Hb.
-        - cbn [flat_map] in Hb. apply in_app_or in Hb. destruct Hb as [Hb | Hb].
-          + exists d. split; [left; reflexivity | exact (IH d b Hb)].
-          + destruct (IHl Hb) as [d' [Hin Hle]]. exists d'. split; [right; exact Hin | exact Hle]. }
-      destruct Hex as [d [Hin Hle]]. pose proof (depth_child d ds Hin). lia.
+    + pose proof (depth_child d ds Hin) as Hlt.
+      assert (depth b <= depth d) as Hle by (apply IH; [lia | exact Hbd]). lia.
 Qed.
 
-Lemma asubterms_length : forall a, length (asubterms a) = anodes a.
+Lemma asubterms_depth a b : In b (asubterms a) -> depth b <= depth a.
+Proof. apply asubterms_depth_n with (n := S (depth a)). lia. Qed.
+
+Lemma flat_map_length_sum {A B} (f : A -> list B) (g : A -> nat) (l : list A) :
+  (forall x, In x l -> length (f x) = g x) -> length (flat_map f l) = list_sum (map g l).
 Proof.
-  fix IH 1. intro a. destruct a as [ | n | i | ds ]; cbn [asubterms anodes length]; try reflexivity.
-  f_equal. induction ds as [ | d l IHl ]; cbn [flat_map map list_sum].
+  induction l as [ | x l IHl ]; intro H; cbn [flat_map map list_sum].
   - reflexivity.
-  - rewrite app_length, IHl, (IH d). reflexivity.
+  - rewrite app_length, IHl, (H x (or_introl eq_refl)); [reflexivity | ].
+    intros y Hy. apply H. right. exact Hy.
 Qed.
+
+Lemma asubterms_length_n : forall n a, depth a < n -> length (asubterms a) = anodes a.
+Proof.
+  induction n as [ | n IH ]; intros a Hd; [lia | ].
+  destruct a as [ | s | i | ds ]; cbn [asubterms anodes length]; try reflexivity.
+  f_equal. apply flat_map_length_sum. intros d Hin.
+  pose proof (depth_child d ds Hin) as Hlt. apply IH. lia.
+Qed.
+
+Lemma asubterms_length a : length (asubterms a) = anodes a.
+Proof. apply asubterms_length_n with (n := S (depth a)). lia. Qed.
 
 (* an alias (a leaf, a reference) on the actual side has no proper contained type *)
 Lemma asubterms_alias i x : In x (asubterms (AAlias i)) -> x = AAlias i.
@@ -118,4 +148,31 @@ Proof.
   unfold descents_ok. rewrite forallb_forall, Forall_forall. split; intros H x Hx.
   - apply Nat.leb_le. exact (H x Hx).
   - apply Nat.leb_le. exact (H x Hx).
+Qed.
+
+Lemma dreach_in_written_type env k e a e' a' :
+  dreach env k (e, a) (e', a') -> In a' (asubterms a) /\ length (asubterms a) = anodes a.
+Proof.
+  intro H. split.
+  - exact (dreach_subterm env k e a e' a' H).
+  - exact (asubterms_length a).
+Qed.
+
+Lemma ex_two_lists :
+  let env := two_lists in
+  closed_env env = true /\
+  dreach env 0 (AAlias 0, AAlias 1) (AAlias 0, AAlias 1) /\
+  dreach env 1 (AAlias 0, list_body 1) (AAlias 0, AAlias 1) /\
+  depth (list_body 1) = 2 /\
+  descents_ok (list_body 1) [1; 0] = true /\
+  descents_ok (AAlias 1) [1] = false.
+Proof.
+  cbv zeta. split; [vm_compute; reflexivity | ]. split; [apply DRefl | ].
+  split; [ | split; [vm_compute; reflexivity | split; vm_compute; reflexivity]].
+  (* List1 -> the Struct of List1 -> its member next = List1 again; then one descent into the actual Struct *)
+  apply DStepA with (ds := [a_key false; ALeaf; a_key true; AAlias 1]).
+  - apply DStepE with (ts := [a_key false; ALeaf; a_key true; AAlias 0]).
+    + apply DStepAlias with (i := 0); [apply DRefl | reflexivity].
+    + right. right. right. left. reflexivity.
+  - right. right. right. left. reflexivity.
 Qed.
